@@ -12,7 +12,7 @@ from ..rules.common import FlagSem, is_super_call, rule_chain, run_flags
 LEVEL = 'other'
 TECHNIQUE = ('static: registry-completeness (cooperative __init_subclass__ in front of the JSON registry, unique registry names), '
              'writer/reader agreement between exported fields and constructor parameters of every model dataclass (JSON and '
-             'repr-as-source routes), encoder/decoder image rule for strings, typestate of the cycle bookkeeping in asjson, '
+             'repr-as-source routes), encoder/decoder image rule for strings, typestate of the cycle bookkeeping in asjson incl. threading of the visited set through every __json__/asjson hop, '
              'pickle state-key agreement, export of every model class that repr-as-source names')
 LEVEL_TEXT = ('Decides from the source, for every model class at once: each class is registered under a unique name for JSON '
               'reload; every public field a model object exports is either a constructor parameter or recomputed in __post_init__ '
